@@ -35,6 +35,9 @@ type FaultCase struct {
 	// LocalClose: the application has sent its own close frame before it reads
 	// (and goes on reading until the peer's close or the end of the transport).
 	LocalClose bool `json:"local_close,omitempty"`
+	// WriteDead: every transport write fails with a plain error from the
+	// start (no automatic reply gets out); what is read is unaffected.
+	WriteDead bool `json:"write_dead,omitempty"`
 }
 
 type faultKind struct {
@@ -77,6 +80,7 @@ func genFaultCase(t *rapid.T) FaultCase {
 	c.ReArm = rapid.Bool().Draw(t, "rearm")
 	c.Limit = rapid.SampledFrom([]int{0, 0, 1, 2}).Draw(t, "limit")
 	c.LocalClose = rapid.IntRange(0, 3).Draw(t, "local_close") == 0
+	c.WriteDead = !c.LocalClose && rapid.IntRange(0, 3).Draw(t, "write_dead") == 0
 	if rapid.IntRange(0, 5).Draw(t, "join") == 0 {
 		c.Join = true
 		c.Term = rapid.SampledFrom([]string{"\n", "||", "\n", ""}).Draw(t, "term")
@@ -226,6 +230,9 @@ func runFaultJoin(c FaultCase, model *Model, off int, fk faultKind, later int, o
 	h := &handlerLog{failAt: -1}
 	h.install(conn)
 	applyFaultCaseSettings(c, model, conn)
+	if c.WriteDead {
+		tr.SetWriteFault(&xport.WriteFault{K: 0, Kind: xport.FaultError})
+	}
 	var joined []byte
 	var bounds []int // joined length after message i and its terminator
 	for _, m := range model.Msgs {
@@ -321,6 +328,9 @@ func runFault(c FaultCase, model *Model, lens []int, off int, fk faultKind, late
 	h := &handlerLog{failAt: -1}
 	h.install(conn)
 	applyFaultCaseSettings(c, model, conn)
+	if c.WriteDead {
+		tr.SetWriteFault(&xport.WriteFault{K: 0, Kind: xport.FaultError})
+	}
 	if c.ReArm {
 		afterReadError = func(cn *websocket.Conn, i int) {
 			if i%2 == 0 {
